@@ -342,7 +342,16 @@ template <class T> struct Shrt3d
         expectThrow ("removeScalingAndShear(Matrix44).zero-scale-not-reported", in, [&] { w = M; removeScalingAndShear (w); });
         expectThrow ("computeRSMatrix.degenerate-A-not-reported", in, [&] { computeRSMatrix (true, true, M, regularM); });
         expectThrow ("computeRSMatrix.degenerate-B-not-reported", in, [&] { computeRSMatrix (false, false, regularM, M); });
-        t.transitions += 20;
+        // "degenerate input is reported ... rather than decomposed": A and B are both inputs of computeRSMatrix, so a
+        // degenerate one is reported under every flag combination, also the one in which its factors end up unused
+        // (seed C12-z2 skipped the factorisation of B when both of A's factors are kept).
+        for (int fl = 0; fl < 4; ++fl)
+        {
+            const bool kr = fl & 1, ks = fl & 2;
+            expectThrow ("computeRSMatrix.degenerate-A-not-reported.every-flag-combination", in, [&] { computeRSMatrix (kr, ks, M, regularM); });
+            expectThrow ("computeRSMatrix.degenerate-B-not-reported.every-flag-combination", in, [&] { computeRSMatrix (kr, ks, regularM, M); });
+        }
+        t.transitions += 28;
     }
 
     // ---- exactly singular linear part WITHOUT a zero row: integer rows over {-1,0,1,2}, exact rank < 3.
